@@ -245,8 +245,10 @@ Definition run (input : list Z) : list Z :=
   let '(md, l) := w_next input in
   if md =? 1 then
     let '(h, _) := w_bytes l in [o_bool (private_host h)]
-  else if md =? 2 then
-    (* a real node: mode allow_private control_host control_port manual-list adv_host adv_port echo-octet stun? stun-address *)
+  else if (md =? 2) || (md =? 3) then
+    (* a real node: mode allow_private control_host control_port manual-list adv_host adv_port echo-octet stun? stun-address;
+       md 3 continues: stale non-manual entries that were in the configuration from the start (stripped by every refresh),
+       then a second start of the transport after the operator changed mode / allow_private, with a new STUN answer *)
     let '(mo, l) := w_next l in let '(ap, l) := w_next l in
     let '(ch, l) := w_bytes l in let '(cp, l) := w_next l in
     let '(nm, l) := w_next l in
@@ -255,16 +257,25 @@ Definition run (input : list Z) : list Z :=
     let '(ms, l) := rd (Z.to_nat nm) l in
     let '(has_adv, l) := w_next l in let '(ah, l) := w_bytes l in let '(apt, l) := w_next l in
     let '(echo_octet, l) := w_next l in
-    let '(stun, l) := w_next l in let '(sa, _) := w_bytes l in
-    let c := mkNcfg mo (negb (ap =? 0)) ch cp ms (if has_adv =? 0 then None else Some ah) apt in
+    let '(stun, l) := w_next l in let '(sa, l) := w_bytes l in
     let echo := [49; 57; 56; 46; 53; 49; 46; 49; 48; 48; 46] ++ dec_digits echo_octet in
-    let stun_ok := negb (stun =? 0) in
-    let ext := if stun_ok then sa else s_any in
     let tp := tp_model in
-    let '(advd, cands, conflict) := refresh c echo tp ext tp stun_ok in
-    let pref := preferred c advd cands conflict tp ext tp true in
-    o_adv tp advd
-    ++ (zlen cands :: flat_map (fun cd => let '(h, p, v) := cd in o_bytes h ++ [o_port tp p; v]) cands)
-    ++ [o_bool conflict]
-    ++ o_adv tp (hints pref)
+    let observe (c : ncfg) (stun : Z) (sa : list Z) : list Z :=
+      let stun_ok := negb (stun =? 0) in
+      let ext := if stun_ok then sa else s_any in
+      let '(advd, cands, conflict) := refresh c echo tp ext tp stun_ok in
+      let pref := preferred c advd cands conflict tp ext tp true in
+      o_adv tp advd
+      ++ (zlen cands :: flat_map (fun cd => let '(h, p, v) := cd in o_bytes h ++ [o_port tp p; v]) cands)
+      ++ [o_bool conflict]
+      ++ o_adv tp (hints pref) in
+    let c := mkNcfg mo (negb (ap =? 0)) ch cp ms (if has_adv =? 0 then None else Some ah) apt in
+    if md =? 2 then observe c stun sa
+    else
+      let '(nst, l) := w_next l in
+      let '(_, l) := rd (Z.to_nat nst) l in
+      let '(mo2, l) := w_next l in let '(ap2, l) := w_next l in
+      let '(stun2, l) := w_next l in let '(sa2, _) := w_bytes l in
+      let c2 := mkNcfg mo2 (negb (ap2 =? 0)) ch cp ms (if has_adv =? 0 then None else Some ah) apt in
+      observe c stun sa ++ observe c2 stun2 sa2
   else [-1].
